@@ -294,6 +294,30 @@ def run(chk: Check):
                                              f"{lang} output differs between two compilations of the same closure "
                                              f"({'same process, another closure compiled in between, other cwd/output dir' if which == 'second' else 'fresh process, other PYTHONHASHSEED/cwd/output dir'}): "
                                              + _first_diff(txt, o2.get(lang)), replay)
+                # the same closure through a symlink to the definition directory (two depths, relative / absolute path,
+                # different cwd's), and through a symlink to the root file alone
+                if det.get("links_error"):
+                    chk.broken_obligation("harness could not create the symlinks of the determinism part", det["links_error"])
+                for how, lk in (det.get("links") or {}).items():
+                    if lk["exc"]:
+                        chk.spec_failure("determinism:symlinked-dir-fails", f"the same closure fails when compiled through a symlinked directory ({how}): {lk['exc'][:160]}", replay)
+                        continue
+                    for lang, txt in res["outputs"].items():
+                        if lk["outs"].get(lang) != txt:
+                            chk.spec_failure(f"determinism:{lang}:symlinked-dir",
+                                             f"{lang} output differs between compiling the closure in its real directory and through a symlink "
+                                             f"to that directory ({how}): " + _first_diff(txt, lk["outs"].get(lang)), replay)
+                fl = det.get("file_link")
+                if fl is not None:
+                    if fl["exc"]:
+                        chk.spec_failure("determinism:root-file-symlink", f"the closure fails when the root file is named through a symlink: {fl['exc'][:160]}", replay)
+                    else:
+                        for lang, txt in res["outputs"].items():
+                            if fl["outs"].get(lang) != txt:
+                                chk.spec_failure("determinism:root-file-symlink",
+                                                 f"{lang} output differs when the root FILE is named through a symlink in another directory: "
+                                                 + _first_diff(txt, fl["outs"].get(lang)), replay)
+                                break
                 ndet_ok += 1
             # (b)
             rt = res.get("rt")
@@ -354,9 +378,11 @@ def run(chk: Check):
     chk.cov["evaluations"] = len(corpus) + ndet_ok * 2 + 1
     chk.cov["traces_validated_against_impl"] = len(coq_cases) - len([b for b in bad if b >= 0])
     chk.cov["distinct_nontrivial"] = len(nontrivial)
-    chk.cov["rule"] = ("(a) determinism - NOT A PROOF, differential execution only: each selected closure compiled by pyrtma.compile.compile three "
+    chk.cov["rule"] = ("(a) determinism - NOT A PROOF, differential execution only: each selected closure compiled by pyrtma.compile.compile six "
                        "times (in-process; in-process again after ANOTHER closure was compiled in between, from another closure location, cwd and "
-                       "output dir; in a fresh interpreter with another PYTHONHASHSEED) and all five outputs compared byte for byte. "
+                       "output dir; in a fresh interpreter with another PYTHONHASHSEED; through a symlink to the definition directory one level "
+                       "deep with a relative path from the project directory; through such a symlink three levels deep with an absolute path from "
+                       "another cwd; through a symlink to the root file alone) and all five outputs compared byte for byte. "
                        "(b) every corpus closure: combined YAML re-parsed by the real Parser with the options it carries; ids, hashes, sizes, "
                        "alignments, field tables compared with the first parse (entry for entry, and up to the position of the reserved "
                        "placeholders); Model/Emit.v (parse, combined_items, re-parse, theorem conditions) "
